@@ -162,4 +162,11 @@ theorem numbersCheck_agrees (ps : Dict) :
 
 example : (numbersCheck [("start".toList, "1e5".toList)]) = .unsupported "float() literal" := by decide +kernel
 
+/-- lifting to the sheet: the cell is cleaned (`clean_text_values`) first, every theorem above applies to the cleaned cell -/
+theorem range_sheet_cell (raw : Str) : rangeCellOfSheet raw = rangeCell (Spell.cleanText true raw) := rfl
+
+example : rangeCellOfSheet "end=5. step=1,5  End=10".toList =
+    .reject "Accepted parameters are 'end, start, step'. The following are invalid parameter(s): '5 end'.".toList := by
+  decide +kernel
+
 end Pyxv.C17.Pre
